@@ -247,6 +247,8 @@ func insertionCase(g *gen.G, p *big.Int, d, b int, tree *ref.Tree, nIns int) (st
 			start = big.NewInt(int64(g.Intn(nIns)))
 		}
 	}
+	// the circuit sees the start index as a field element
+	start.Mod(start, p)
 	ids := make([]*big.Int, b)
 	proofs := make([][]*big.Int, b)
 	work := tree.Clone()
